@@ -81,6 +81,15 @@ def check(ctx: Ctx) -> None:
         """terms a local of serve_rsync may be known by (a symbol inside its nested functions)"""
         return [("sym", name)] + ([st.env[name]] if name in st.env else [])
 
+    def is_entry(E, st) -> bool:
+        """E is one recorded (path, entry) pair taken from modifiedfiles: a loop element, or popped from its front"""
+        if E[0] == "elem" and E[1] in loc(st, "modifiedfiles"):
+            return True
+        if E[0] == "fresh":
+            mk = [x for x in st.events if x.kind == "call" and x.result == E]
+            return bool(mk) and mk[0].recv in loc(st, "modifiedfiles") and (mk[0].attr == "popleft" or (mk[0].attr == "pop" and mk[0].args == (const(0),)))
+        return False
+
     def st_of(st):
         r = [e.result for e in st.events if e.kind == "call" and e.callee == "os.lstat" and not e.raised]
         return r[0] if r else None
@@ -183,7 +192,7 @@ def check(ctx: Ctx) -> None:
         nmeta = 0
         for (_p, st) in srv_paths:
             for e in st.events:
-                if e.kind == "call" and e.callee in ("os.chmod", "os.utime") and len(e.args) == 2 and e.args[0][0] == "idx" and e.args[0][1][0] == "elem" and e.args[0][1][1] in loc(st, "modifiedfiles"):
+                if e.kind == "call" and e.callee in ("os.chmod", "os.utime") and len(e.args) == 2 and e.args[0][0] == "idx" and is_entry(e.args[0][1], st):
                     E = e.args[0][1]
                     nmeta += 1
                     want_ = ("idx", ("idx", E, const(1)), const(0)) if e.callee == "os.chmod" else ("tuple", ("idx", ("idx", E, const(1)), const(1)), ("idx", ("idx", E, const(1)), const(1)))
@@ -264,7 +273,7 @@ def check(ctx: Ctx) -> None:
                     if fi is f_rds:
                         sent_mode = [("idx", m, const(0))] + [x.result for x in st.events if x.kind == "call" and x.attr == "pop" and x.recv == m and x.args == (const(0),)]
                     else:
-                        sent_mode = [M] if (M[0] == "idx" and M[2] == const(0) and M[1][0] == "idx" and M[1][2] == const(1) and M[1][1][0] == "elem") else []
+                        sent_mode = [M] if (M[0] == "idx" and M[2] == const(0) and M[1][0] == "idx" and M[1][2] == const(1) and is_entry(M[1][1], st)) else []
                     plain = M in sent_mode
                     ok = plain or (in_dir and M[0] == "bin" and M[1] == "BitOr" and M[2] in sent_mode and M[3] in (const(0o700),))
                     if id(e.node) not in seen:
@@ -340,9 +349,9 @@ def check(ctx: Ctx) -> None:
         for (_p, st) in rds_paths:
             m = msg_of(st)
             for e in st.events:
-                if not (e.kind == "call" and e.callee == "remove" and e.args):
+                if not (e.kind == "call" and e.callee in ("remove", "os.unlink", "shutil.rmtree") and e.args):
                     continue
-                others = [x for x in subterms(e.args[0]) if x[0] == "elem" and _fresh_of(x[1], "os.listdir")]
+                others = [x for a_ in e.args for x in subterms(a_) if x[0] == "elem" and _fresh_of(x[1], "os.listdir")]
                 if not others:
                     continue
                 nrm += 1
@@ -438,16 +447,21 @@ def check(ctx: Ctx) -> None:
     with ctx.obligation("C17.g", "metadata-always") as ob:
         # mode and mtime are applied to every listed file after the content step, also when the content was unchanged
         niter = 0
+        heads_srv = {n.id for n in ev_srv.cfg.nodes if n.kind in ("test", "for") and isinstance(n.owner, (ast.While, ast.For))}
         for (p, st) in srv_paths:
-            Es = [e.value for e in st.events if e.kind == "assign" and e.value[0] == "idx" and e.value[1][0] == "elem" and e.value[1][1] in loc(st, "modifiedfiles")]
+            if p[-1][0] not in heads_srv or p[-1][1] == "":
+                continue  # not a full trip round a loop
+            head = p[-1][0]
+            order = [nid for (nid, _l) in p]
+            first_visit = order.index(head)
+            # the entry of this trip: the loop element, or what is popped from the front of modifiedfiles inside the loop
+            Es = [e.value[1] if e.value[0] == "idx" else e.value for e in st.events
+                  if e.kind == "assign" and e.nid in order[first_visit:] and ((e.value[0] == "idx" and is_entry(e.value[1], st)) or is_entry(e.value, st))]
             if not Es:
                 continue
-            E = Es[0][1]
-            head = E[2]
-            if p[-1][0] != head or p[-1][1] == "":
-                continue  # not a full trip round the content loop
+            E = Es[0]
             niter += 1
-            first = next(i for i, e in enumerate(st.events) if e.kind == "iter" and e.nid == head)
+            first = next(i for i, e in enumerate(st.events) if e.nid in order[first_visit:] and e.nid != -1 and order.index(e.nid) >= first_visit)
             calls = [e for e in st.events[first:] if e.kind == "call"]
             raised = any(e.raised for e in calls)
             rc = [e for e in calls if e.callee == "channel.receive"]
